@@ -164,9 +164,27 @@ def run_laws(ctx, p):
         l2 = np.asarray(X * np.asarray(Y * P))
         back = np.asarray(X.inv() * np.asarray(X * P))
         Q = np.asarray(X * P)
+        # the same composition written with the augmented operator on a copy, on an element taken out of a sequence and on an
+        # inverse obtained earlier; the objects the user still holds must act on points as before
+        Xi = X.inv()
+        W = type(X)(X)
+        W *= Y
+        l1b = np.asarray(W * P)
+        Sq = mk_pose(cname, [B, A])
+        E = Sq[1]
+        E *= Y
+        l1c = np.asarray(E * P)
+        Q2 = np.asarray(X * P)
+        back2 = np.asarray(Xi * Q2)
+        S1 = np.asarray(Sq[1] * P)
     except Exception as e:
         ctx.bad('laws', dict(sig, kind='raised', exc=type(e).__name__, where=_where(e)), '%s point laws raised %r' % (cname, e))
         return
+    for nm, got, want in (('(C(X) *= Y) * p', l1b, l2), ('(S[1] *= Y) * p', l1c, l2), ('X * p after the augmented products', Q2, Q),
+                          ('X.inv() (taken earlier) * (X * p)', back2, P), ('S[1] * p after E = S[1]; E *= Y', S1, Q)):
+        e_ = float(np.max(np.abs(np.asarray(got) - np.asarray(want)))) if np.shape(got) == np.shape(want) else math.inf
+        ctx.judge('laws', e_ <= TOL * magnitude(P, l1, l2, Q, Rt_of(cname, [A], 0)[1], Rt_of(cname, [B], 0)[1]), dict(sig, kind='augmented_composition'),
+                  lambda: '%s: %s is off by %.3g' % (cname, nm, e_))
     tA, tB = Rt_of(cname, [A], 0)[1], Rt_of(cname, [B], 0)[1]
     mag = magnitude(P, l1, l2, tA, tB, Q)
     e1 = float(np.max(np.abs(l1 - l2))) if l1.shape == l2.shape else math.inf
